@@ -63,7 +63,7 @@ def doNew (ts : List String) : Option Sess := do
 
 def doInit (s : Sess) : Option (Sess × String) := do
   if s.inited then none
-  let t ← (List.range s.t.ik).foldlM (fun (t : Tree Int) i => t.insertStart 0 (curKey s i) i) s.t
+  let t ← insertFrom 0 ((List.range s.t.ik).map (curKey s)) 0 s.t
   let t ← t.init s.lt
   let s' := { s with t := t, inited := true }
   let out ← stateStr s'
